@@ -143,3 +143,35 @@ func H_C17_unset() {
 	zz.Assert(len(out) == len(want), "C17: serialized length differs after Set(nil)")
 	zz.Assert(zz.EqBytes(out, want), "C17: serialized fields differ after Set(nil)")
 }
+
+// H_C01_reuse: the bytes handed out by ToBytes stay valid when the same message object is changed
+// through its setters and serialized again (a queued message must not be rewritten in place).
+// params: [template, mask, cnt0, cnt1, cnt2, lenSel, route, change]
+func H_C01_reuse() {
+	zz.Class(shapeClass())
+	s := template(zz.Param(0))
+	m := buildMessage(s)
+	p := ctlFromParams(1)
+	p.first = true
+	p.populateMessage(s, m)
+	out, err := m.ToBytes()
+	zz.Assert(err == nil, "C01: ToBytes returned an error")
+	cp := append([]byte{}, out...)
+	switch zz.Param(7) {
+	case 0: // shorter image: drop the body
+		m.SetBody()
+	case 1: // shorter image: un-populate header members
+		for _, it := range m.Header().Items() {
+			if kv, ok := it.(*fix.KeyValue); ok {
+				_ = kv.Value.Set(nil)
+			}
+		}
+	case 2: // longer image: one more body field
+		m.SetBody(append(m.Body(), fix.NewKeyValue("9999", fix.NewString(string(zz.Bytes(2)))))...)
+	}
+	out2, err2 := m.ToBytes()
+	zz.Assert(err2 == nil, "C01: second ToBytes returned an error")
+	zz.Reach("reserialized")
+	zz.Assert(frameOK(out2, "8", "9", "35", "10", []byte(s.bs), []byte(s.mt)), "C01: framing/BodyLength/CheckSum wrong after changing and re-serializing the message")
+	zz.Assert(zz.EqBytes(out, cp), "C01: bytes returned by an earlier ToBytes were overwritten by a later one")
+}
